@@ -35,6 +35,32 @@ def c18 (args res : List String) : Verdict :=
         else if url ≠ model then vDiff "url" (toHex model) tag
         else vOk tag
     | _, _ => vBad (joinToks args)
+  | ["sreq", sufH, hashH, idH, plenS, totalS, bits], [got, portS, targetH, hostH] =>
+    -- the Session's own announce with pieces already owned: the same request; "the number of bytes left" is read as either
+    -- the total length (what the client reports throughout) or the bytes of the pieces not owned yet
+    match parseHex sufH, parseHex hashH, parseHex idH, plenS.toNat?, totalS.toNat?, portS.toNat? with
+    | some suffix, some hash, some peerId, some plen, some total, some port =>
+      let announce := strBytes s!"http://127.0.0.1:{port}" ++ suffix
+      let tag := "sreq-" ++ urlTag announce hash
+      if got ≠ "resp" then vProp s!"announce-not-completed-{got}" tag else
+      match parseHex targetH, parseHex hostH with
+      | some target, some host =>
+        let base := (cutAt cQ suffix).1
+        let path := if base.isEmpty then [47] else base
+        let np := (total + plen - 1) / plen
+        let pieceLen (i : Nat) : Nat := if i + 1 = np then total - plen * (np - 1) else plen
+        let owned : Nat := ((List.range np).filter fun i => bits.toList.getD i '0' = '1').foldl (fun a i => a + pieceLen i) 0
+        let ps := params peerId Rdest.Gen.PORT total
+        let psTrue := ps.map fun (k, v) =>
+          if k = sLeft then (k, Rdest.Bencode.natDec (total - owned)) else if k = sDownloaded then (k, Rdest.Bencode.natDec owned) else (k, v)
+        let got := parsePairs (queryOf target)
+        if host ≠ strBytes s!"127.0.0.1:{port}" then vProp "T3-host-header-is-not-the-announce-host" tag
+        else if (cutAt cQ target).1 ≠ path then vProp "T3-request-path-is-not-the-announce-path" tag
+        else if got ≠ expectedPairs announce hash ps ∧ got ≠ expectedPairs announce hash psTrue then
+          vProp "T4-query-does-not-carry-announce-pairs-info-hash-peer-id-port-left" tag
+        else vOk tag
+      | _, _ => vBad (joinToks res)
+    | _, _, _, _, _, _ => vBad (joinToks args)
   | ["req", sufH, hashH, idH, totalS], [got, portS, targetH, hostH] =>
     match parseHex sufH, parseHex hashH, parseHex idH, totalS.toNat?, portS.toNat? with
     | some suffix, some hash, some peerId, some total, some port =>
